@@ -67,7 +67,8 @@ class Anon:
 
 @dataclass(frozen=True)
 class Orphan:
-    """a signal of width w that the module does not own: kind 0 = owned by no module, 1 = owned by another"""
+    """a signal of width w that the module does not own: kind 0 = owned by no module, 1 = owned by a module outside the design,
+    2 = owned by a child module of this design (the module-definition attribute used where the instance port was meant)"""
     kind: int
     w: int
 
